@@ -399,6 +399,10 @@ func (u *Universe) prelude() string {
 	b.WriteString("(declare-fun sconcat (Str Str) Str)\n")
 	b.WriteString("(assert (forall ((a Str) (b Str)) (! (= (strlen (sconcat a b)) (+ (strlen a) (strlen b))) :pattern ((sconcat a b)))))\n")
 	b.WriteString("(declare-fun strlt (Str Str) Bool)\n")
+	// Go's < on strings is a strict total order (assumed axioms of the uninterpreted string sort)
+	b.WriteString("(assert (forall ((a Str)) (! (not (strlt a a)) :pattern ((strlt a a)))))\n")
+	b.WriteString("(assert (forall ((a Str) (b Str) (c Str)) (! (=> (and (strlt a b) (strlt b c)) (strlt a c)) :pattern ((strlt a b) (strlt b c)))))\n")
+	b.WriteString("(assert (forall ((a Str) (b Str)) (! (or (= a b) (strlt a b) (strlt b a)) :pattern ((strlt a b)))))\n")
 	b.WriteString("(declare-fun hasPrefix (Str Str) Bool)\n(declare-fun strContains (Str Str) Bool)\n")
 	b.WriteString("(declare-fun reftag (Int) Int)\n(assert (= (reftag 0) 0))\n")
 	b.WriteString("(declare-fun idx (Int Int) Int)\n(assert (forall ((o Int) (j Int)) (! (= (idx o j) (+ o j)) :pattern ((idx o j)))))\n")
